@@ -13,7 +13,7 @@ PROPERTY = 'C02'
 LEVEL = 'exploration'
 BOOT = {'kernel': True}
 TIERS = {
-    'quick': {'runs': 160, 'budget_s': 90, 'shrink_runs': 60, 'opts': {'max_vtime': 6000.0, 'wall_timeout': 200}},
+    'quick': {'runs': 128, 'budget_s': 70, 'shrink_runs': 60, 'opts': {'max_vtime': 6000.0, 'wall_timeout': 200}},
     'thorough': {'runs': 6000, 'budget_s': 1200, 'shrink_runs': 120, 'opts': {'max_vtime': 6000.0, 'wall_timeout': 300}},
 }
 RULE = ('loops: each run = one generated DoWhile package (one or two documents, k in {0..3} iterations decided by the scripted '
